@@ -640,6 +640,73 @@ fn vp_native_redirect_across_no_proxy_boundary() {
     println!("VP-NATIVE redirect_across_no_proxy_boundary cases=2");
 }
 
+/// C02: a body whose framing is incomplete because the server stopped sending (the read times out) is never reported as complete,
+/// whichever way the caller reads it: the convenience readers return Err, a read loop ends in an error, and what was handed
+/// out before is a prefix of the payload
+#[test]
+fn vp_native_stalled_body_is_an_error() {
+    let payload: Vec<u8> = (0..40u8).map(|i| b'a' + i % 26).collect();
+    let mut cases = 0u64;
+    let handles: Vec<std::thread::JoinHandle<u64>> = ["chunked-inside-chunk", "chunked-after-chunk", "chunked-in-size-line", "chunked-before-last-crlf", "length"].into_iter().map(|shape| {
+        let payload = payload.clone();
+        std::thread::spawn(move || { let mut cases = 0u64;
+        for helper in ["bytes", "write_to", "text_utf8", "reads-16", "reads-1", "split-bytes"] {
+            let l = TcpListener::bind("127.0.0.1:0").unwrap();
+            let port = l.local_addr().unwrap().port();
+            let p2 = payload.clone();
+            std::thread::spawn(move || {
+                if let Ok((mut s, _)) = l.accept() {
+                    let mut r = BufReader::new(s.try_clone().unwrap());
+                    loop { let mut h = String::new(); if r.read_line(&mut h).unwrap_or(0) == 0 || h == "\r\n" { break; } }
+                    let mut w: Vec<u8> = Vec::new();
+                    match shape {
+                        "length" => { w.extend_from_slice(format!("HTTP/1.1 200 OK\r\nContent-Length: {}\r\n\r\n", p2.len()).as_bytes()); w.extend_from_slice(&p2[..25]); }
+                        _ => {
+                            w.extend_from_slice(b"HTTP/1.1 200 OK\r\nTransfer-Encoding: chunked\r\n\r\n");
+                            w.extend_from_slice(format!("{:x}\r\n", 20).as_bytes()); w.extend_from_slice(&p2[..20]); w.extend_from_slice(b"\r\n");
+                            match shape {
+                                "chunked-inside-chunk" => { w.extend_from_slice(b"14\r\n"); w.extend_from_slice(&p2[20..29]); }
+                                "chunked-after-chunk" => {}
+                                "chunked-in-size-line" => { w.extend_from_slice(b"1"); }
+                                _ => { w.extend_from_slice(b"14\r\n"); w.extend_from_slice(&p2[20..]); w.extend_from_slice(b"\r\n0\r\n"); }
+                            }
+                        }
+                    }
+                    s.write_all(&w).ok(); s.flush().ok();
+                    std::thread::sleep(std::time::Duration::from_millis(2500));   // nothing more comes within the client's read timeout
+                }
+            });
+            let ctx = format!("{} body, the server falls silent, read through {}", shape, helper);
+            let resp = crate::get(format!("http://127.0.0.1:{}/", port)).read_timeout(std::time::Duration::from_millis(400)).send().unwrap_or_else(|e| panic!("the head arrived completely ({}): {}", ctx, e));
+            match helper {
+                "bytes" => { let r = resp.bytes(); assert!(r.is_err(), "bytes() reported a complete body of {} bytes ({})", r.map(|b| b.len()).unwrap_or(0), ctx); }
+                "split-bytes" => { let r = resp.split().2.bytes(); assert!(r.is_err(), "ResponseReader::bytes() reported a complete body of {} bytes ({})", r.map(|b| b.len()).unwrap_or(0), ctx); }
+                "write_to" => { let mut sink = Vec::new(); let r = resp.write_to(&mut sink); assert!(r.is_err(), "write_to() reported a complete body of {:?} bytes ({})", r.ok(), ctx);
+                                assert!(sink.len() <= payload.len() && sink[..] == payload[..sink.len()], "write_to() wrote bytes that are not a prefix of the payload ({})", ctx); }
+                "text_utf8" => { let r = resp.text_utf8(); assert!(r.is_err(), "text_utf8() reported a complete body {:?} ({})", r.ok(), ctx); }
+                _ => {
+                    let size = if helper == "reads-1" { 1 } else { 16 };
+                    let mut resp = resp; let mut got = Vec::new(); let mut errors = 0;
+                    for _ in 0..200 {
+                        let mut b = vec![0u8; size];
+                        match resp.read(&mut b) {
+                            Ok(0) => { assert!(errors > 0, "the body ended cleanly after {} bytes without an error ({})", got.len(), ctx); break; }
+                            Ok(n) => got.extend_from_slice(&b[..n]),
+                            Err(_) => { errors += 1; if errors >= 2 { break; } }
+                        }
+                        assert!(got.len() <= payload.len() && got[..] == payload[..got.len()], "bytes handed out are not a prefix of the payload ({})", ctx);
+                    }
+                    assert!(errors > 0, "no error was ever reported ({})", ctx);
+                }
+            }
+            cases += 1;
+        }
+        cases })
+    }).collect();
+    for h in handles { cases += h.join().unwrap_or_else(|p| std::panic::resume_unwind(p)); }
+    println!("VP-NATIVE stalled_body_is_an_error cases={}", cases);
+}
+
 /// C19: sending returns once the head has arrived, and every body byte that has arrived can be read without waiting for more:
 /// length- and close-delimited bodies, the server pausing after k body bytes, every caller read size (smaller, equal, larger)
 #[test]
